@@ -214,7 +214,7 @@ func init() {
 	dynWeights := map[string]int{"ep_scale": 25, "ep_ready": 10, "ep_replace": 12, "pod_term": 4, "secret_rotate": 8, "ing_ann": 5, "ing_update": 3,
 		"svc_update": 3, "global_change": 1, "renotify": 2, "advance": 6}
 	dynKeys := []string{"affinity", "session-cookie-dynamic", "session-cookie-name", "session-cookie-strategy", "session-cookie-preserve", "session-cookie-value-strategy", "initial-weight",
-		"blue-green-deploy", "backend-server-naming", "slots-min-free", "backend-server-slots-increment", "dynamic-scaling", "balance-algorithm", "maxconn-server",
+		"blue-green-deploy", "blue-green-header", "blue-green-cookie", "backend-server-naming", "slots-min-free", "backend-server-slots-increment", "dynamic-scaling", "balance-algorithm", "maxconn-server",
 		"assign-backend-server-id", "secure-backends", "ssl-redirect"}
 	sockFaults := []string{"sock.dial_refused", "sock.write_fail", "sock.read_timeout", "sock.reset_before_exec", "sock.reset_after_exec", "sock.short_reads",
 		"sock.nonok_reply", "sock.garbage_reply", "disk.read_fail"}
@@ -242,6 +242,19 @@ func init() {
 	}
 	mkDyn("dyn", false)
 	mkDyn("dyn-faults", true)
+	// blue/green selectors: use-server rules exist in the files only; a slot that changes group needs a reload
+	register(&Profile{Name: "dyn-bluegreen", Prop: "C02", Weight: 1,
+		Oracles: OracleSet{Property: "C02", EffectiveStep: true, EffectiveAtSync: true},
+		Build: func(seed uint64, tier string) *RunConfig {
+			r := cfgRng(seed)
+			mn, mx := tierOps(tier, 10, 30)
+			rc := &RunConfig{Property: "C02", Profile: "dyn-bluegreen", Seed: seed, Ctl: sampleCtl(r), MapOrder: r.IntN(2) == 0, Lagfree: r.IntN(3) == 0}
+			w := map[string]int{"ep_scale": 20, "ep_ready": 6, "ep_replace": 20, "pod_term": 3, "renotify": 2, "advance": 5}
+			rc.World, rc.Ops = GenerateRun(seed, GenOptions{Sparse: r.IntN(3) == 0, IngressKeys: []string{"blue-green-header", "blue-green-cookie", "blue-green-deploy", "balance-algorithm"},
+				AnnChance: 1, MinOps: mn, MaxOps: mx, QuiesceEvery: pickInt(r, 3, 6), KeysPerRun: 3, W: w, NoForeignClass: true, NoTLS: true,
+				InitialGlobal: map[string]string{"slots-min-free": fmt.Sprint(pickInt(r, 1, 2, 4)), "dynamic-scaling": "true"}})
+			return rc
+		}})
 	// preserved pod-uid cookies: a slot's cookie cannot be changed at run time
 	register(&Profile{Name: "dyn-cookie", Prop: "C02", Weight: 1,
 		Oracles: OracleSet{Property: "C02", EffectiveStep: true, EffectiveAtSync: true},
@@ -384,7 +397,7 @@ func init() {
 			if r.IntN(4) != 0 {
 				initial["auth-proxy"] = []string{"_front__auth:14415-14415", "_front__auth:14415-14416", "_front__auth:14415-14419"}[r.IntN(3)]
 			}
-			rc.World, rc.Ops = GenerateRun(seed, GenOptions{Sparse: r.IntN(2) == 0, IngressKeys: []string{"auth-url", "oauth", "auth-external-placement", "balance-algorithm"},
+			rc.World, rc.Ops = GenerateRun(seed, GenOptions{Sparse: r.IntN(2) == 0, IngressKeys: []string{"auth-url", "oauth", "auth-external-placement", "balance-algorithm", "server-alias"},
 				ValueOverrides: map[string][]string{"auth-external-placement": {"frontend", "backend", "backend", "Backend", "front", ""}},
 				GlobalKeys:     []string{"auth-proxy", "external-has-lua", "timeout-client"}, InitialGlobal: initial, AnnChance: 2,
 				Hosts: []string{"app.local", "api.local", "web.local"}, MinOps: mn, MaxOps: mx, QuiesceEvery: pickInt(r, 2, 4), KeysPerRun: 4, W: w, NoForeignClass: true})
